@@ -104,8 +104,15 @@ Definition ret_none (o : op) : bool :=
   match primary_rs o with None => true | Some r => negb (r_content r) end.
 
 (* ------------------------------------------------------------------ the generated `match` *)
-Inductive case_action := CReturn | CAlias (m : N).      (* return <value|None>  /  raise <alias m>(response=response) *)
-Inductive action := AReturn | ARaiseAlias (m : N) | ARaiseFallback.
+(* return <value|None>  /  raise <alias m>(response=response)  /  raise HTTPError(…) inline for a declared
+   numeric code that is not an error code (1xx/3xx: aliases exist for 4xx/5xx only) *)
+Inductive case_action := CReturn | CAlias (m : N) | CBase.
+Inductive action := AReturn | ARaiseAlias (m : N) | ARaiseDeclaredOther | ARaiseFallback.
+
+Definition in_range (lo hi n : N) : bool := (lo <=? n) && (n <? hi).
+Definition is_error_code (n : N) : bool := in_range error_lo error_hi n.
+Definition is_client_error (n : N) : bool := in_range client_lo client_hi n.
+Definition is_server_error (n : N) : bool := in_range server_lo server_hi n.
 
 (* primary_success_ir and primary_success_ir.status_code.isdigit() and .startswith("2")  (handler uses copy 2) *)
 Definition processed_primary (o : op) : option (resp * N) :=
@@ -122,7 +129,7 @@ Definition others (o : op) : op :=
 
 Definition case_of (r : resp) : list (N * case_action) :=
   match r_code r with
-  | Num m => [(m, if lead2 m then CReturn else CAlias m)]
+  | Num m => [(m, if lead2 m then CReturn else if is_error_code m then CAlias m else CBase)]
   | _ => []
   end.
 
@@ -131,12 +138,21 @@ Definition cases (o : op) : list (N * case_action) :=
   match processed_primary o with Some (_, n) => [(n, CReturn)] | None => [] end
   ++ flat_map case_of (others o).
 
-(* `case _:` — "Default response" when a `default` key is declared, else the final catch-all *)
-Definition fallback (o : op) : action :=
+(* status_code.upper() == "2XX": rendered as `case _ if 200 <= response.status_code < 300:` after the numeric cases *)
+Definition upper_s (s : str) : str := map upper_ascii s.
+Definition is_wildcard_2xx (c : code) : bool :=
+  match c with Other s => str_eqb (upper_s s) s_wildcard_2xx | _ => false end.
+Definition has_wildcard (o : op) : bool := existsb (fun r => is_wildcard_2xx (r_code r)) (others o).
+
+(* `case _:` — "Default response" when a `default` key is declared, else the final catch-all.  A default response
+   with content stands in for the success body only under `if 200 <= response.status_code < 300:` *)
+Definition default_returns (o : op) : bool :=
   match first_default o with
-  | Some d => if r_content d && negb (ret_none o) then AReturn else ARaiseFallback
-  | None => ARaiseFallback
+  | Some d => r_content d && negb (ret_none o)
+  | None => false
   end.
+Definition fallback (o : op) (st : N) : action :=
+  if default_returns o && in_range default_success_lo default_success_hi st then AReturn else ARaiseFallback.
 
 Definition find_case (st : N) (cs : list (N * case_action)) : option (N * case_action) :=
   find (fun c => fst c =? st) cs.
@@ -145,16 +161,12 @@ Definition dispatch (o : op) (st : N) : action :=
   match find_case st (cases o) with
   | Some (_, CReturn) => AReturn
   | Some (_, CAlias m) => ARaiseAlias m
-  | None => fallback o
+  | Some (_, CBase) => ARaiseDeclaredOther
+  | None => if has_wildcard o && in_range wildcard_lo wildcard_hi st then AReturn else fallback o st
   end.
 
 (* ------------------------------------------------------------------ exception classes *)
 Inductive cls := Named (name : str) | Alias (n : N).
-
-Definition in_range (lo hi n : N) : bool := (lo <=? n) && (n <? hi).
-Definition is_error_code (n : N) : bool := in_range error_lo error_hi n.
-Definition is_client_error (n : N) : bool := in_range client_lo client_hi n.
-Definition is_server_error (n : N) : bool := in_range server_lo server_hi n.
 
 Fixpoint lookupN {V} (k : N) (d : list (N * V)) : option V :=
   match d with [] => None | (k', v) :: d' => if k =? k' then Some v else lookupN k d' end.
@@ -208,16 +220,24 @@ Definition mro (c : cls) : list str := mro_fuel 8 c.
 (* ------------------------------------------------------------------ transport and the whole call *)
 Inductive kind := Bundled | Custom.   (* HttpxTransport / a transport returning every response unraised *)
 
+(* error_class = D; if a <= status < b: error_class = X; elif … (first matching range) *)
+Fixpoint range_class (rs : list (N * N * str)) (default : str) (st : N) : str :=
+  match rs with
+  | [] => default
+  | (lo, hi, c) :: rest => if in_range lo hi st then c else range_class rest default st
+  end.
+
 Definition transport (k : kind) (st : N) : option cls :=
   match k with
-  | Bundled => if (st <? transport_lo) || (transport_hi <=? st) then Some (Named transport_raises) else None
+  | Bundled => if (st <? transport_lo) || (transport_hi <=? st)
+               then Some (Named (range_class transport_ranges transport_default st)) else None
   | Custom => None
   end.
 
 (* the endpoints module does `from <core> import <alias names it raises>`; a name that was never generated
-   makes the import of the module — and with it of <package>.client — fail *)
+   would make the import of the module — and with it of <package>.client — fail *)
 Definition op_imports_ok (o : op) : bool :=
-  forallb (fun c => match snd c with CAlias m => alias_exists m | CReturn => true end) (cases o).
+  forallb (fun c => match snd c with CAlias m => alias_exists m | _ => true end) (cases o).
 Definition imports_ok (s : spec) : bool := forallb op_imports_ok s.
 
 (* Raised c st r : exception of class c with .status_code = st; r = (.response is the response object) *)
@@ -231,7 +251,8 @@ Definition call (k : kind) (s : spec) (o : op) (st : N) : outcome :=
            match dispatch o st with
            | AReturn => Returned
            | ARaiseAlias m => Raised (Alias m) st true
-           | ARaiseFallback => Raised (Named handler_fallback_raises) st true
+           | ARaiseDeclaredOther => Raised (Named handler_declared_other_raises) st true
+           | ARaiseFallback => Raised (Named (range_class handler_ranges handler_fallback_raises st)) st true
            end
        end.
 
@@ -258,24 +279,4 @@ Definition C06_spec (o : outcome) (st : N) : Prop :=
 Definition C06_weak_spec (o : outcome) (st : N) : Prop :=
   exists c, o = Raised c st true /\ sub c HTTPError.
 
-(* ------------------------------------------------------------------ guards (executable) *)
-Definition is_bundled (k : kind) : bool := match k with Bundled => true | Custom => false end.
-Definition err_range (st : N) : bool := in_range 400 600 st.            (* the property's 4xx/5xx *)
-Definition declared_case (o : op) (st : N) : bool :=
-  match find_case st (cases o) with Some _ => true | None => false end.
-Definition fallback_returns (o : op) : bool :=
-  match fallback o with AReturn => true | _ => false end.
-
-(* F06a: bundled transport + 4xx/5xx *)
-Definition guard_F06a (k : kind) (st : N) : bool := negb (is_bundled k && err_range st).
-(* F06b: pass-through transport + 4xx/5xx that no `case` handles and the `case _` raises *)
-Definition guard_F06b (k : kind) (o : op) (st : N) : bool :=
-  negb (negb (is_bundled k) && err_range st && negb (declared_case o st) && negb (fallback_returns o)).
-(* F06c: pass-through transport + status reaching a `default` response that has content *)
-Definition guard_F06c (k : kind) (o : op) (st : N) : bool :=
-  negb (negb (is_bundled k) && negb (declared_case o st) && fallback_returns o).
-(* F06d: some operation of the package declares a numeric non-"2…" code outside 4xx/5xx *)
-Definition guard_F06d (s : spec) : bool := imports_ok s.
-
-Definition guard (k : kind) (s : spec) (o : op) (st : N) : bool :=
-  guard_F06a k st && guard_F06b k o st && guard_F06c k o st && guard_F06d s.
+(* No guard: with F06a-d fixed the property holds for every input (C06_full). *)
